@@ -753,6 +753,65 @@ class LanguageWords:
         return {'op': 'chk_language_from_words', 'nQ': len(A.Q), 'max': inst['max'], 'A': sorted(lang_of(A, inst['len'])), 'words': ws}
 
 
+class CfgLanguageWords:
+    """`check_cfg_language_from_words(text, word_list, length)`: the answer is a simple-format grammar; the word list is the bounded
+    language of a reference grammar (generated by the library's `generate` command)"""
+    name = 'cfg_for_language'
+
+    def instance(self, rng):
+        for _ in range(30):
+            G = gen.unit_chain_cfg(rng) if rng.random() < 0.35 else gen.random_cfg(rng, nvars=rng.randint(1, 3), maxlen=3)
+            if G['R'] and G['R'][0][0] == G['S'] and G['Sigma'] and all(any(l == v for l, _, _ in G['R']) for v in G['V']) \
+                    and all(len(v) == 1 and v.isupper() for v in G['V']):
+                return {'G': G, 'len': rng.choice([2, 3, 4])}
+        return None
+
+    def own(self, inst, sc):
+        inst['words'] = make_notebook.apply_command('generate', [sc.file(simple_cfg_text(inst['G']), 'cfg'), str(inst['len'])])
+        return simple_cfg_text(inst['G'])
+
+    def parse(self, text):
+        return try_parse(CA.parse_simple_cfg, text)
+
+    def mutants(self, rng, inst, own):
+        out = []
+        lines = own.split('\n')
+        if len(lines) > 1:
+            out.append('\n'.join(lines[:-1]))
+        # the same grammar with the rules of the non-start variables listed in reverse order (rule order must not matter)
+        out.append('\n'.join(lines[:1] + lines[1:][::-1]))
+        # a grammar generating MORE through a unit chain written bottom-up: S-rules of the reference plus S -> A, C -> <new>, B -> C, A -> B
+        free = [c for c in 'ABCDEFGH' if c not in inst['G']['V']]
+        if len(free) >= 5 and inst['G']['Sigma']:
+            a = inst['G']['Sigma'][0]
+            extra = rng.choice([a + a + a, a * 4, a + a])
+            for k in (3, 4, 5):
+                chain = free[:k]            # S -> X1, X1 -> X2, ..., Xk -> extra, written from the bottom up
+                rules = ['%s -> %s' % (chain[-1], extra)] + ['%s -> %s' % (chain[i], chain[i + 1]) for i in range(k - 2, -1, -1)]
+                out.append('\n'.join([lines[0] + ' | ' + chain[0]] + lines[1:] + rules))
+        for _ in range(2):
+            G2 = gen.random_cfg(rng, nvars=rng.randint(1, 3), maxlen=3)
+            if all(len(v) == 1 and v.isupper() for v in G2['V']) and G2['R'] and G2['R'][0][0] == G2['S']:
+                out.append(simple_cfg_text(G2))
+        return out
+
+    def check(self, inst, ans):
+        return run_checker(NB.check_cfg_language_from_words, ans, inst['words'], inst['len'])
+
+    def criterion(self, inst, ans):
+        A = self.parse(ans)
+        if A is None:
+            return False
+        s = enc.cfg_to_spec(A)
+        rules = [(l, [(a, b) for a, b in r]) for l, _, r in s['R']]
+        ws = set('' if w in ('ε', '_') else w for w in inst['words'].split())
+        Sig = sorted(set(s['Sigma']) | {c for w in ws for c in w})
+        return {w for w in gen.all_words(Sig, inst['len']) if oracles.cfg_accepts(rules, s['S'], w)} == ws
+
+    def lean(self, inst, ans):
+        return None
+
+
 class LanguageFile(LanguageWords):
     """`check_<kind>_language_from_file`: the reference automaton is read from a file; the answer is an automaton text.
     The checker is called twice on the same file, first with another length bound (a history that must not matter)."""
@@ -816,4 +875,4 @@ class LanguageFile(LanguageWords):
 
 ALL = [Product('union'), Product('intersection'), Product('symmetric_difference'), Complement(), Reverse(),
        Minimal('dfa_minimize'), Minimal('dfa_hopfcroft'), Nfa2Dfa(), Dfa2Regexp(), Cyk(), Derivation('leftmost'),
-       Derivation('rightmost'), Chomsky(1), Chomsky(2), Chomsky(3), Chomsky(4), Chomsky(5), LanguageWords('dfa'), LanguageWords('nfa'), LanguageFile('dfa'), LanguageFile('nfa')]
+       Derivation('rightmost'), Chomsky(1), Chomsky(2), Chomsky(3), Chomsky(4), Chomsky(5), LanguageWords('dfa'), LanguageWords('nfa'), LanguageFile('dfa'), LanguageFile('nfa'), CfgLanguageWords()]
